@@ -554,10 +554,11 @@ Lemma t02_example_loaded :
   end.
 Proof. vm_compute. reflexivity. Qed.
 
-(* Settings' validation of the equity account name (Equity_spec.eq_account_ok = parser::is_valid_id /
-   is_valid_sub_id on the components, F20) is weaker than the journal grammar: "a!b" passes it, and the
-   export written with it is not a journal.  The theorems above therefore assume the grammar's own
-   predicate eq_acct_ok (Journal_spec.name_ok + Journal.acct_sem_ok) for the equity account. *)
+(* parser::is_valid_id / is_valid_sub_id on the components (Equity_spec.eq_account_ok, the first repair
+   of F20) is weaker than the journal grammar: "a!b" passes it, and the export written with it is not a
+   journal.  The theorems above therefore assume the grammar's own predicate eq_acct_ok
+   (Journal_spec.name_ok + Journal.acct_sem_ok) for the equity account; Settings::try_from now enforces
+   exactly that by running the parser's account-name rule on the configured name. *)
 Definition t02_bad_eqa : list (list N) := [[97; 33; 98]%N].
 Lemma eq_account_ok_insufficient :
   eq_account_ok t02_bad_eqa = true /\ eq_acct_ok t02_bad_eqa = false
